@@ -382,12 +382,15 @@ class Run:
 def shrink_line(line, flavour, args, still_fails):
     """Greedy shrink of one op line: try zeroing matrix entries (tokens that are small integers after the header)."""
     toks = line.split(" ")
+    opname = [t for t in toks if not t.startswith("@")][0]
+    if opname not in ("tu", "regular", "ctu", "sp", "camion", "balanced", "graphic", "network", "equimod"):
+        return line
     best = toks
     changed = True
     budget = 200
     while changed and budget > 0:
         changed = False
-        for i in range(len(best) - 1, 0, -1):
+        for i in range(len(best) - 1, 5, -1):
             if best[i] in ("1", "-1") and budget > 0:
                 cand = best[:i] + ["0"] + best[i + 1:]
                 budget -= 1
